@@ -17,6 +17,9 @@
 (*              debt   : lot = bid = gov units requested (falling), pay = fixed stable units L           *)
 (*              generic: lot = collateral sold, bid = debt units offered (rising), pay = bid             *)
 (*   n1, n2   auction id counters of the two generations; tm = token-mint data exists for the app        *)
+(*   esm      the app's emergency shutdown has been executed                                             *)
+(*   nfo      recorded net fees of the app's OTHER assets [uharbor, uatom] (no action of this spec books  *)
+(*            anything there)                                                                             *)
 (* Configuration record c: L DL ST DT bf1n/bf1d bf2n/bf2d A1 B1 A2 (see harness Cfg).                    *)
 EXTENDS Integers, Sequences, FiniteSets
 
@@ -105,14 +108,27 @@ BidV2(s, c, u, id, amt, denom) ==
 
 (* ======================= generation 1 hook ======================= *)
 
-(* close or restart every generation-1 auction of the kind that is past its end; one all-or-nothing unit *)
+(* close or restart every generation-1 auction of the kind that is past its end - or, once the app's emergency   *)
+(* shutdown (s.esm) is executed, every auction of the kind whatever its time; one all-or-nothing unit.            *)
+(* Shutdown close: the standing bidder gets the payment back in full, a surplus lot returns to the collector      *)
+(* (and to the net fees), nothing is minted or burnt.                                                              *)
 RECURSIVE ClosePass1(_, _, _, _)
 ClosePass1(s, c, kind, i) ==
   IF i > Len(s.auc) THEN Ok(s)
   ELSE LET a == s.auc[i] IN
-    IF a.gen # 1 \/ a.kind # kind \/ ~(s.t > a.endT \/ s.t > a.bidEndT) THEN ClosePass1(s, c, kind, i + 1)
-    ELSE IF a.nb = 0
+    IF a.gen # 1 \/ a.kind # kind \/ ~(s.t > a.endT \/ s.t > a.bidEndT \/ s.esm) THEN ClosePass1(s, c, kind, i + 1)
+    ELSE IF a.nb = 0 /\ ~s.esm
       THEN ClosePass1([s EXCEPT !.auc[i].endT = s.t + c.A1, !.auc[i].bidEndT = s.t + c.A1], c, kind, i + 1)
+    ELSE IF s.esm
+      THEN IF kind = "surplus"
+           THEN LET b1 == IF a.nb > 0 THEN Move(s.bal, "a1", a.bidder, HARBOR, a.bid) ELSE s.bal   \* bid back to the bidder
+                    b2 == Move(b1, "a1", "col", CMST, a.lot)                                       \* lot back to the collector
+                IN IF ~Has(s.bal, "a1", CMST, a.lot) \/ (a.nb > 0 /\ ~Has(s.bal, "a1", HARBOR, a.bid)) THEN Fail(s)
+                   ELSE ClosePass1([s EXCEPT !.bal = b2, !.nf = @ + a.lot, !.nfFound = TRUE, !.fl.active = FALSE,
+                                             !.auc = RemoveAt(@, i)], c, kind, i)
+           ELSE LET b1 == IF a.nb > 0 THEN Move(s.bal, "a1", a.bidder, CMST, a.pay) ELSE s.bal      \* payment back to the bidder
+                IN IF a.nb > 0 /\ ~Has(s.bal, "a1", CMST, a.pay) THEN Fail(s)
+                   ELSE ClosePass1([s EXCEPT !.bal = b1, !.fl.active = FALSE, !.auc = RemoveAt(@, i)], c, kind, i)
     ELSE IF ~s.tm THEN Fail(s)                                 \* burn / mint needs the app's token-mint data
     ELSE IF kind = "surplus"
       THEN LET b1 == Move(s.bal, "a1", a.bidder, CMST, a.lot)   \* lot to the winner
@@ -125,9 +141,10 @@ ClosePass1(s, c, kind, i) ==
               ELSE ClosePass1([s EXCEPT !.bal = b2, !.nf = @ + a.pay, !.nfFound = TRUE, !.fl.active = FALSE,
                                         !.auc = RemoveAt(@, i)], c, kind, i)
 
-(* SurplusActivator / DebtActivator with the mapping record read BEFORE both units (stale flags) *)
+(* SurplusActivator / DebtActivator with the mapping record read BEFORE both units (stale flags); no auction is   *)
+(* started after the emergency shutdown                                                                            *)
 SurplusUnit1(s, c, fl0) ==
-  IF fl0.sur /\ ~fl0.active
+  IF fl0.sur /\ ~fl0.active /\ ~s.esm
   THEN IF s.nfFound /\ s.nf >= c.ST + c.L
        THEN IF ~(s.nf - c.L > 0) \/ ~Has(s.bal, "col", CMST, c.L) THEN s          \* GetAmountFromCollector fails: unit discarded
             ELSE [s EXCEPT !.bal = Move(@, "col", "a1", CMST, c.L), !.nf = @ - c.L, !.n1 = @ + 1, !.fl.active = TRUE,
@@ -138,7 +155,7 @@ SurplusUnit1(s, c, fl0) ==
   ELSE s
 
 DebtUnit1(s, c, fl0) ==
-  IF fl0.debt /\ ~fl0.active
+  IF fl0.debt /\ ~fl0.active /\ ~s.esm
   THEN IF s.nfFound /\ s.nf <= c.DT - c.L
        THEN [s EXCEPT !.n1 = @ + 1, !.fl.active = TRUE,
                       !.auc = Append(@, NewAuc(1, "debt", s.n1 + 1, c.DL, c.DL, s.t + c.A1))]
@@ -151,7 +168,9 @@ HookV1(s, c) == DebtUnit1(SurplusUnit1(s, c, s.fl), c, s.fl)
 
 (* ======================= generation 2: block ======================= *)
 
-(* LiquidateForSurplusAndDebt -> CheckStatsForSurplusAndDebt (not atomic; an error stops the pass) *)
+(* LiquidateForSurplusAndDebt -> CheckStatsForSurplusAndDebt (not atomic; an error stops the pass).             *)
+(* A surplus auction only CHECKS that the net fees can spare the lot: the lot stays in the collector (and in    *)
+(* the net fees) until the auction closes.                                                                    *)
 StartV2(s, c) ==
   IF s.fl.active \/ ~s.nfFound THEN s
   ELSE LET s1 == IF s.nf <= c.DT - c.L /\ s.fl.debt
@@ -159,39 +178,39 @@ StartV2(s, c) ==
                                 !.auc = Append(@, NewAuc(2, "debt", s.n2 + 1, c.DL, c.DL, s.t + c.A2))]
                  ELSE s
        IN IF s.nf >= c.ST + c.L /\ s.fl.sur
-          THEN IF ~(s1.nf - c.L > 0) \/ ~Has(s1.bal, "col", CMST, c.L) THEN s1
-               ELSE [s1 EXCEPT !.bal = Move(@, "col", "a1", CMST, c.L),        \* the lot goes to the GENERATION-1 auction account
-                               !.nf = @ - c.L, !.n2 = @ + 1, !.fl.active = TRUE,
+          THEN IF ~(s1.nf - c.L > 0) THEN s1
+               ELSE [s1 EXCEPT !.n2 = @ + 1, !.fl.active = TRUE,
                                !.auc = Append(@, NewAuc(2, "surplus", s1.n2 + 1, c.L, 0, s.t + c.A2))]
           ELSE s1
 
-(* CloseEnglishAuction as the code does it. book \in {"gov","stable"}: which amount a debt close adds to the   *)
-(* net fees - the code books the gov-token amount (deviation V2DebtBooksGov), the intended value is the     *)
-(* stable amount that entered the collector.                                                                 *)
-CloseV2(s, c, i, book) ==
+(* CloseEnglishAuction. surplus: the lot leaves the collector for the winner and the net fees are lowered by it  *)
+(* (DecreaseNetFeeCollectedData refuses to go below zero), the bid is burnt; debt: the gov lot is minted to the   *)
+(* winner, the stable payment enters the collector and the net fees rise by exactly that payment; generic: lot  *)
+(* to the winner, payment to the external initiator.                                                            *)
+CloseV2(s, c, i) ==
   LET a == s.auc[i] IN
   IF a.kind = "surplus"
-  THEN IF ~Has(s.bal, "col", CMST, a.lot) \/ ~s.tm \/ a.bid <= 0 THEN Fail(s)
-       ELSE Ok([s EXCEPT !.bal = Debit(Move(@, "col", a.bidder, CMST, a.lot), "a2", HARBOR, a.bid),   \* deviation V2SurplusPaysTwice
-                         !.nf = @ + a.lot, !.fl.active = FALSE, !.auc = RemoveAt(@, i)])
+  THEN IF ~Has(s.bal, "col", CMST, a.lot) \/ ~s.tm \/ a.bid <= 0 \/ ~s.nfFound \/ s.nf - a.lot < 0 THEN Fail(s)
+       ELSE Ok([s EXCEPT !.bal = Debit(Move(@, "col", a.bidder, CMST, a.lot), "a2", HARBOR, a.bid),
+                         !.nf = @ - a.lot, !.fl.active = FALSE, !.auc = RemoveAt(@, i)])
   ELSE IF a.kind = "debt"
   THEN IF ~s.tm THEN Fail(s)
        ELSE Ok([s EXCEPT !.bal = Move(IF a.lot > 0 THEN Credit(@, a.bidder, HARBOR, a.lot) ELSE @, "a2", "col", CMST, a.pay),
-                         !.nf = @ + (IF book = "gov" THEN a.lot ELSE a.pay), !.nfFound = TRUE,
+                         !.nf = @ + a.pay, !.nfFound = TRUE,
                          !.fl.active = FALSE, !.auc = RemoveAt(@, i)])
   ELSE Ok([s EXCEPT !.bal = Move(Move(@, "a2", a.bidder, ATOM, a.lot), "a2", "ext", CMST, a.pay), !.auc = RemoveAt(@, i)])
 
 (* AuctionIterator: each auction is its own all-or-nothing unit *)
-RECURSIVE Iterate2(_, _, _, _)
-Iterate2(s, c, i, book) ==
+RECURSIVE Iterate2(_, _, _)
+Iterate2(s, c, i) ==
   IF i > Len(s.auc) THEN s
   ELSE LET a == s.auc[i] IN
-    IF a.gen # 2 \/ ~(s.t > a.endT) THEN Iterate2(s, c, i + 1, book)
-    ELSE IF a.nb = 0 THEN Iterate2([s EXCEPT !.auc[i].endT = s.t + c.A2, !.auc[i].bidEndT = s.t + c.A2], c, i + 1, book)
-    ELSE LET r == CloseV2(s, c, i, book) IN
-         IF r.ok THEN Iterate2(r.st, c, i, book) ELSE Iterate2(s, c, i + 1, book)
+    IF a.gen # 2 \/ ~(s.t > a.endT) THEN Iterate2(s, c, i + 1)
+    ELSE IF a.nb = 0 THEN Iterate2([s EXCEPT !.auc[i].endT = s.t + c.A2, !.auc[i].bidEndT = s.t + c.A2], c, i + 1)
+    ELSE LET r == CloseV2(s, c, i) IN
+         IF r.ok THEN Iterate2(r.st, c, i) ELSE Iterate2(s, c, i + 1)
 
-Block(s, c, dt, book) == Iterate2(StartV2([s EXCEPT !.t = @ + dt], c), c, 1, book)
+Block(s, c, dt) == Iterate2(StartV2([s EXCEPT !.t = @ + dt], c), c, 1)
 
 (* ======================= environment ======================= *)
 StartGeneric(s, c, lot, minBid) ==
@@ -199,6 +218,8 @@ StartGeneric(s, c, lot, minBid) ==
   ELSE Ok([s EXCEPT !.bal = Move(@, "ext", "a2", ATOM, lot), !.n2 = @ + 1,
                     !.auc = Append(@, NewAuc(2, "generic", s.n2 + 1, lot, minBid, s.t + c.A2))])
 MintGenesis(s) == IF s.tm THEN Fail(s) ELSE Ok([s EXCEPT !.tm = TRUE])
+(* emergency shutdown of the app is executed (environment; x/esm status record) *)
+EsmOn(s) == [s EXCEPT !.esm = TRUE]
 (* a well-behaved distributor contract: WasmCheckSurplusRewardQuery, then WasmMsgGetSurplusFund for that amount *)
 SurplusFundAmt(s, c) == IF s.fl.dist /\ s.nfFound /\ s.nf > c.ST + c.L THEN s.nf - c.ST ELSE 0
 SurplusFund(s, c) ==
@@ -237,6 +258,7 @@ Improves(kind, old, new, fn, fd) ==
   IF kind = "debt" THEN (old - new) * fd >= fn * old ELSE (new - old) * fd >= fn * old
 
 (* C13 (step): recorded net fees move exactly with the collector's custody of the asset *)
-CollectorDelta(p, s) == s.bal["col"][CMST] - p.bal["col"][CMST] = s.nf - p.nf
+CollectorDelta(p, s) == /\ s.bal["col"][CMST] - p.bal["col"][CMST] = s.nf - p.nf
+                        /\ \A d \in {HARBOR, ATOM} : s.bal["col"][d] - p.bal["col"][d] = s.nfo[d] - p.nfo[d]
 CollectorBacked(s) == s.bal["col"][CMST] >= s.nf
 =============================================================================
